@@ -126,6 +126,8 @@ def C16(ctx):
     model_check(ctx, "Lru", "MC_Lru.cfg", "Lru (as coded) refines LossyMap: 3 keys, 4 hashes, cap 2^0->2^2", workers=6)
     # a memo in front of a deterministic function is transparent iff its key determines the answer: KeySound
     ite_key_checks(ctx)
+    # proof (TLAPS, any argument space, any eviction policy): given KeySound, a cache that may lose any entry at any time never changes a result
+    proof_check(ctx, "MemoProof", "an operation behind a lossy cache keyed by a sound key returns F(args) on every call, whatever was evicted before")
     gen_and_replay(ctx, "GenLru", "GenLru.cfg" if ctx.quick else "GenLru_big.cfg", "lru",
                    "all insert/get sequences of the bounded Lru model")
     n = 4 if ctx.quick else 24 * TH
